@@ -277,7 +277,8 @@ def newton_secant(func, x0, args=(), tol=1.48e-8, maxiter=50,
 @njit
 def _bisect_interval(a, b, fa, fb):
     """Conditional checks for intervals in methods involving bisection"""
-    if fa*fb > 0:
+    # Compare signs, not the product, which can underflow to zero
+    if np.sign(fa)*np.sign(fb) > 0:
         raise ValueError("f(a) and f(b) must have different signs")
     root = 0.0
     status = _ECONVERR
@@ -359,7 +360,7 @@ def bisect(f, a, b, args=(), xtol=_xtol,
             fm = f(xm, *args)
             funcalls += 1
 
-            if fm * fa >= 0:
+            if np.sign(fm) * np.sign(fa) >= 0:
                 xa = xm
 
             if fm == 0 or abs(dm) < xtol + rtol * abs(xm):
@@ -435,7 +436,7 @@ def brentq(f, a, b, args=(), xtol=_xtol,
         # Perform Brent's method
         for itr in range(maxiter):
 
-            if fpre * fcur < 0:
+            if np.sign(fpre) * np.sign(fcur) < 0:
                 xblk = xpre
                 fblk = fpre
                 spre = scur = xcur - xpre
